@@ -433,3 +433,6 @@ _quick("C13", "C13_manyholds", "one binary connection takes N = 1 / 63 / 64 / 65
 _quick("C02", "C02_dupwait", "a key of capacity 2 held by Y and Z; LockId X queues two requests (second with the same terms or Rcount 1); Y and Z leave; UNLOCK of X with Rcount 0 must remove everything X holds (key free), a second UNLOCK of X is refused", ["-witness", "1"], reach=["both-granted"])
 
 _quick("C18", "C18_promoted", "through the real Server.handle with the forwarding wrappers: the node is a follower when a binary / text client connects and answers its PING, is promoted to leader before the client's second packet, which registers a will; the client goes away: the will runs on this node exactly once", ["-witness", "1"], reach=["promoted"])
+
+_quick("C20", "C20_longwait2", "the long-wait / long-expiry bucket queue at the server's geometry (first node 256 entries) under the server's own maintenance trigger (real RemoveLongTimeOut / RemoveLongExpried: restructure when a third of the bucket, at least 256 entries, or all of it is holes): every program of 4 steps out of {300 new entries, 900 new entries, the older 40 % leave one by one, the newer 40 % leave, all but 2 leave}, then drained, Reset and reused for 2000 entries", ["-witness", "20"])
+_thorough("C20", "C20_longwait2x", "as C20_longwait2 with 5 steps", ["-witness", "100"])
